@@ -640,3 +640,168 @@ func genCaseNA(t *rapid.T) CaseNA {
 var C09NA = Register(&Check[CaseNA]{Prop: "C09", Name: "C09.nameaddr", Gen: genCaseNA, Eval: evalNA})
 
 var _ = big.NewInt
+
+// enumNA enumerates small name-addr specs exhaustively for the same model-by-construction oracle: every display-name
+// form (none, token, two tokens, quoted string holding delimiters) x blank kinds before '<', bracketed URI with its own
+// parameters or bare URI, 0..2 header parameters out of {tag, expires, q, lr, quoted generic, value-less tag, re-cased
+// expires} with a blank in each of the four whitespace slots (one parameter) or in all / none (two parameters), for
+// From / To / Contact / P-Asserted-Identity, direct and through ParseHeaders, two line ends, blanks after the colon and
+// before the line end, no / zero / small contact array; two-value headers over a representative subset with blanks
+// around the comma; Contact: *. allCuts: the "headers" entry is also fed under every single cut of the block.
+func enumNA(allCuts bool, shard, nshards int, emit func(CaseNA) bool) {
+	type disp struct{ d, ws string }
+	disps := []disp{{"", ""}}
+	for _, d := range []string{"Bob", "Bob  X.", "\"A, <B>;\\\"q\""} {
+		for _, ws := range []string{"", " ", "\r\n "} {
+			disps = append(disps, disp{d, ws})
+		}
+	}
+	base := []ParamSpec{
+		{Name: B("tag"), HasEq: true, Val: B("t1-a.b")},
+		{Name: B("expires"), HasEq: true, Val: B("60")},
+		{Name: B("q"), HasEq: true, Val: B("0.5")},
+		{Name: B("lr")},
+		{Name: B("x"), HasEq: true, Val: B("\"q,;<>\"")},
+		{Name: B("tag")},
+		{Name: B("Expires"), HasEq: true, Val: B("7")},
+	}
+	wsv := []string{"", " "}
+	var plists [][]ParamSpec
+	plists = append(plists, nil)
+	for _, p := range base {
+		for _, w0 := range wsv {
+			for _, w1 := range wsv {
+				for _, w2 := range wsv {
+					for _, w3 := range wsv {
+						q := p
+						q.WS0, q.WS1, q.WS2 = B(w0), B(w1), B(w2)
+						if q.HasEq {
+							q.WS3 = B(w3)
+						} else if w3 != "" {
+							continue
+						}
+						plists = append(plists, []ParamSpec{q})
+					}
+				}
+			}
+		}
+	}
+	for _, p1 := range base {
+		for _, p2 := range base {
+			if asciiLower(p1.Name) == asciiLower(p2.Name) {
+				continue
+			}
+			for _, w := range wsv {
+				a, b := p1, p2
+				a.WS0, a.WS1, a.WS2 = B(w), B(w), B(w)
+				b.WS0, b.WS1, b.WS2 = B(w), B(w), B(w)
+				if a.HasEq {
+					a.WS3 = B(w)
+				}
+				if b.HasEq {
+					b.WS3 = B(w)
+				}
+				plists = append(plists, []ParamSpec{a, b})
+			}
+		}
+	}
+	var nas []NameAddrSpec
+	for _, pl := range plists {
+		for _, d := range disps {
+			nas = append(nas, NameAddrSpec{Display: B(d.d), DispWS: B(d.ws), Angle: true, URI: B("sip:a@h.example;x=1?y=z"), Params: pl})
+		}
+		nas = append(nas, NameAddrSpec{URI: B("sip:a@h.example"), Params: pl})
+	}
+	types := []sipsp.HdrT{sipsp.HdrFrom, sipsp.HdrTo, sipsp.HdrContact, sipsp.HdrPAI}
+	idx := 0
+	mk := func(ht sipsp.HdrT, hdrs [][]NAVal, entry, lead, trail, eol string, ctcap int) bool {
+		c := CaseNA{HType: int(ht), Hdrs: hdrs, Entry: entry, Lead: B(lead), Trail: B(trail), EOL: B(eol), CtCap: ctcap, ExpHdr: -1}
+		if !emit(c) {
+			return false
+		}
+		if entry != "headers" {
+			return true
+		}
+		n := 40
+		for _, h := range hdrs {
+			for _, v := range h {
+				n += len(v.NA.Render()) + 4
+			}
+		}
+		cuts := []int{n / 2}
+		if allCuts {
+			cuts = cuts[:0]
+			for k := 1; k < n; k++ {
+				cuts = append(cuts, k)
+			}
+		}
+		for _, k := range cuts {
+			c.Sched = []int{k}
+			if !emit(c) {
+				return false
+			}
+		}
+		return true
+	}
+	for _, na := range nas {
+		for _, ht := range types {
+			idx++
+			if idx%nshards != shard {
+				continue
+			}
+			for _, entry := range []string{"direct", "headers"} {
+				for _, lead := range []string{"", " "} {
+					for _, trail := range []string{"", " "} {
+						for _, eol := range []string{"\r\n", "\n"} {
+							for _, ctcap := range []int{-1, 0} {
+								if !mk(ht, [][]NAVal{{{NA: na}}}, entry, lead, trail, eol, ctcap) {
+									return
+								}
+							}
+						}
+					}
+				}
+			}
+		}
+	}
+	// two values per header, two headers
+	var rep []NameAddrSpec
+	for i := 0; i < len(nas); i += len(nas)/14 + 1 {
+		rep = append(rep, nas[i])
+	}
+	for _, a := range rep {
+		for _, b := range rep {
+			idx++
+			if idx%nshards != shard {
+				continue
+			}
+			for _, ht := range []sipsp.HdrT{sipsp.HdrContact, sipsp.HdrPAI} {
+				for _, pre := range wsv {
+					for _, post := range wsv {
+						for _, entry := range []string{"direct", "headers"} {
+							for _, ctcap := range []int{0, 1, 10} {
+								vals := []NAVal{{NA: a}, {NA: b, PreComma: B(pre), PostComma: B(post)}}
+								hdrs := [][]NAVal{vals}
+								if entry == "headers" {
+									hdrs = append(hdrs, []NAVal{{NA: b}})
+								}
+								if !mk(ht, hdrs, entry, " ", "", "\r\n", ctcap) {
+									return
+								}
+							}
+						}
+					}
+				}
+			}
+		}
+	}
+	if shard == 0 {
+		for _, entry := range []string{"direct", "headers"} {
+			for _, trail := range []string{"", " ", "\r\n "} {
+				if !mk(sipsp.HdrContact, [][]NAVal{{{NA: NameAddrSpec{Star: true}}}}, entry, " ", trail, "\r\n", -1) {
+					return
+				}
+			}
+		}
+	}
+}
